@@ -29,6 +29,7 @@ import (
 
 	"github.com/B1NARY-GR0UP/originium/pkg/bufferpool"
 	"github.com/B1NARY-GR0UP/originium/pkg/logger"
+	"github.com/B1NARY-GR0UP/originium/pkg/verifhook"
 	"github.com/B1NARY-GR0UP/originium/types"
 	"github.com/B1NARY-GR0UP/originium/utils"
 )
@@ -50,10 +51,12 @@ func Create(dir string) (*WAL, error) {
 
 	name := path.Join(dir, fmt.Sprintf("wal-%s.log", version))
 
+	verifhook.FS("create", name)
 	file, err := os.OpenFile(name, os.O_CREATE|os.O_RDWR|os.O_APPEND, 0755)
 	if err != nil {
 		return nil, err
 	}
+	verifhook.FSDone("create", name)
 	return &WAL{
 		logger:  logger.GetLogger(),
 		fd:      file,
@@ -101,9 +104,11 @@ func (w *WAL) Delete() error {
 	if err := w.close(); err != nil {
 		return err
 	}
+	verifhook.FS("remove", w.path)
 	if err := os.Remove(w.path); err != nil {
 		return err
 	}
+	verifhook.FSDone("remove", w.path)
 	return nil
 }
 
@@ -143,13 +148,17 @@ func (w *WAL) Write(entries ...types.Entry) error {
 		w.logger.Debugf("wal prepare entry: %+v", entry)
 	}
 
+	verifhook.FS("write", w.path)
 	if err := binary.Write(w.fd, binary.LittleEndian, buf.Bytes()); err != nil {
 		return err
 	}
+	verifhook.FSDone("write", w.path)
 
+	verifhook.FS("sync", w.path)
 	if err := w.fd.Sync(); err != nil {
 		return err
 	}
+	verifhook.FSDone("sync", w.path)
 	w.logger.Debugf("wal commit %v bytes of entries", buf.Len())
 	return nil
 }
